@@ -244,7 +244,7 @@ pub struct C8Case {
     pub pack: bool,
 }
 
-fn c8_s() -> impl proptest::strategy::Strategy<Value = C8Case> {
+pub fn c8_s() -> impl proptest::strategy::Strategy<Value = C8Case> {
     use proptest::prelude::*;
     (gencfg_s(28, 4), proptest::collection::vec(any::<u8>(), 32), any::<bool>(), any::<bool>()).prop_map(|(mut g, layout_choices, comments, pack)| {
         g.with_prints = false;
@@ -252,7 +252,7 @@ fn c8_s() -> impl proptest::strategy::Strategy<Value = C8Case> {
     })
 }
 
-fn eval_cli(c: &C8Case) -> CaseOutcome {
+pub fn eval_cli(c: &C8Case) -> CaseOutcome {
     let prog = build_program(&c.g);
     let layout = Layout { choices: c.layout_choices.clone(), comments: c.comments, trailing_newline: true, pack_lines: c.pack };
     let rendered = render_program(&prog, &layout);
@@ -336,25 +336,30 @@ pub fn deep_program(kind: u8, n: u16) -> Program {
             code.push(i0("add", vec![r(R16::BX), imm(1)]));
             code.push(i0("loop", vec![name("again")]));
         }
-        4 => {
-            // a label / a procedure behind n instructions (instruction indices beyond 16 bits when n > 65535):
-            // jump over the block, call the procedure defined behind it... procedures must precede their calls, so the
-            // procedure comes first and the long block lies between its definition and the call site
+        4 | 6 => {
+            // labels behind n never-executed instructions (instruction indices beyond 16 bits when n > 65535).  Every jump
+            // of these programs is a LOOP with CX = 2, so that they terminate wherever a mis-resolved target leads.
+            // kind 4: 'start' itself lies behind the block; kind 6: start first, a forward LOOP over the block
             code.push(Item::Proc { name: "early".into(), body: vec![i0("add", vec![r(R16::BX), imm(7)])] });
-            code.push(Item::Label("start".into()));
-            code.push(i0("mov", vec![r(R16::AX), imm(0)]));
-            code.push(i0("mov", vec![r(R16::DX), imm(0)]));
-            code.push(i0("jmp", vec![name("far_label")]));
-            for _ in 0..n {
-                code.push(i0("mov", vec![r(R16::DX), imm(1)]));
+            if kind == 4 {
+                for _ in 0..n {
+                    code.push(i0("mov", vec![r(R16::DX), imm(1)]));
+                }
+                code.push(Item::Label("start".into()));
+                code.push(i0("mov", vec![r(R16::CX), imm(2)]));
+                code.push(i0("loop", vec![name("far_label")]));
+                code.push(i0("mov", vec![r(R16::SI), imm(9)]));
+            } else {
+                code.push(Item::Label("start".into()));
+                code.push(i0("mov", vec![r(R16::CX), imm(2)]));
+                code.push(i0("loop", vec![name("far_label")]));
+                for _ in 0..n {
+                    code.push(i0("mov", vec![r(R16::DX), imm(1)]));
+                }
             }
             code.push(Item::Label("far_label".into()));
             code.push(i0("add", vec![r(R16::AX), imm(5)]));
             code.push(i0("call", vec![name("early")]));
-            code.push(i0("cmp", vec![r(R16::AX), imm(5)]));
-            code.push(i0("je", vec![name("far_end")]));
-            code.push(i0("mov", vec![r(R16::DX), imm(2)]));
-            code.push(Item::Label("far_end".into()));
         }
         _ => {
             code.push(Item::Proc { name: "probe".into(), body: vec![i0("add", vec![r(R16::AX), imm(1)]), i0("jmp", vec![name("back")])] });
@@ -388,6 +393,7 @@ fn deep_family(ctx: &Ctx) {
     // long programs: a label behind n instructions
     for n in [100u16, 40_000, 65_534, 65_535] {
         jobs.push((4, n));
+        jobs.push((6, n));
     }
     let outcomes: Vec<((u8, u16), CaseOutcome)> = jobs
         .par_iter()
@@ -401,7 +407,7 @@ fn deep_family(ctx: &Ctx) {
             let rr = ref_run(&flat, &image, &cfg, &Quirks::none());
             let exp = crate::c17::blank_lines(&normalise(&rr.events));
             let out = run_cli(rendered.text.as_bytes(), Stdin::Closed, false, 1 << 20, 120_000);
-            let name = ["recursion", "procedure-chain", "sequential-calls", "calls-left-by-jump", "label-behind-n-instructions", "calls-left-by-jump"][*kind as usize];
+            let name = ["recursion", "procedure-chain", "sequential-calls", "calls-left-by-jump", "start-behind-n-instructions", "calls-left-by-jump", "label-behind-n-instructions"][*kind as usize];
             let replay = json!({"kind":"cli","source":rendered.text,"stdin":"","interpreted":false,"blank_line_numbers":true,
                 "expected_events": exp.iter().map(|e| format!("{:?}", e)).collect::<Vec<_>>()});
             let o = if matches!(out.status, Status::Timeout | Status::SpawnError(_)) {
